@@ -7,7 +7,8 @@ ROOT = os.path.dirname(os.path.dirname(os.path.abspath(__file__)))
 PY = '/venv/bin/python'
 
 LEMMAS = ('Trusted base: Sphinx lemmas TJ/H/L1-L3 (DESIGN.md 1.1); Python semantics of the analysed subset; the '
-          'checker reads /repo with ast only and never imports or runs hidc.')
+          'checker reads /repo with ast only and never imports or runs hidc; where a rule is decided by evaluation, the '
+          'syntax trees are evaluated by the checker\'s own interpreter (CONSTEVAL) on finite tables chosen by the checker.')
 
 CHECKS = {
     'C01': dict(
@@ -42,7 +43,8 @@ CHECKS = {
              'preemptive flag that arms the return-boundary guard.'),
     'C06': dict(
         technique='abstract interpretation of the context flag set through the grammar coroutines over the full '
-                  '32-element lattice, with semantic-position tracking',
+                  '32-element lattice, with semantic-position tracking; plus a placement table (construct x position) '
+                  'evaluated by the checker\'s own interpreter of the lexer/grammar syntax trees',
         text='Exhaustive over the finite context lattice: the accept/reject verdict of the grammar for every '
              'context-sensitive construct in every reachable (coroutine, context, semantic position) is compared in '
              'both directions with the documented rule; holds at any nesting depth by fixpoint.'),
@@ -60,7 +62,8 @@ CHECKS = {
              'fp is rebased symmetrically, stop handler restores fp then ap.'),
     'C09': dict(
         technique='table/sibling agreement (token, AST class, fold, instruction, mnemonic), lowering-shape rules on '
-                  'emission paths, interpretation of accessor classes',
+                  'emission paths, interpretation of accessor classes; condition lowerings interpreted on small '
+                  'condition trees and evaluated under the jump/halt lemmas for every truth assignment',
         text='Decides the compiler\'s operator mapping and the agreement of the value / branch / defeat lowerings, '
              'cast lowerings and byte-access mapping. VM arithmetic itself is not decided.'),
     'C10': dict(
@@ -71,12 +74,14 @@ CHECKS = {
              'are outside the table.'),
     'C11': dict(
         technique='structural extraction of the precedence ladder from the grammar coroutines, compared with the '
-                  'documented table',
+                  'documented table; plus the finite table of operator pairs/triples evaluated by the checker\'s own '
+                  'interpreter of the lexer/grammar syntax trees against a reference precedence parser',
         text='Complete for the grammar as written: levels, operator sets, operand rules, left fold, unary/is/postfix/'
              'paren/?? binding all equal the documented table. The print/parse round trip is not decided (no printer).'),
     'C12': dict(
-        technique='regex syntax trees to DFA language equivalence with reference patterns; table checks; reader-order '
-                  'and span-bookkeeping order rules',
+        technique='regex syntax trees to DFA language equivalence with reference patterns; table checks; readers and '
+                  'lex() tabulated by the checker\'s own interpreter on enumerated short sources (bounded) against a '
+                  'reference tokeniser, under both set iteration orders',
         text='Literal patterns are language-equivalent to references, escape table, keyword/symbol partition and '
              'longest-match order, reader order, span bookkeeping order, layout-free tokens.'),
     'C13': dict(
@@ -85,8 +90,9 @@ CHECKS = {
         text='Escaping is total and exact over every byte value and both quote characters; string table length '
              'prefixes, directive kinds, bool bit order and recorded array lengths agree.'),
     'C14': dict(
-        technique='fold-table agreement, finite tabulation of literal casts and logical folds, information-flow '
-                  'census for word size',
+        technique='fold-table agreement, finite tabulation of literal casts and logical folds, effect-preservation '
+                  'tabulation of simplify() and a typed-tree census (catalogue programs typechecked by the checker\'s own '
+                  'interpreter), information-flow census for word size',
         text='Decides agreement of the folding tables with the run-time lowering tables and the literal-cast rules; '
              'word-size dependence of non-homomorphic folds is reported as a known finding.'),
     'C15': dict(
